@@ -435,7 +435,7 @@ class SymNum:
         mc = self.concrete()
         if mc is not None:
             return SymNum(_and_const(o.t, mc))
-        return SymNum(_bitop_sym(self, o, "and"))
+        return _bitop_sym(self, o, "and")
 
     __rand__ = __and__
 
@@ -443,11 +443,15 @@ class SymNum:
         self._need_int()
         m = _const_int(o)
         if m is not None:
+            if m == 0:
+                return self
+            if self.lz and 0 < m < (1 << self.lz):
+                return SymNum(self.t + z3.IntVal(m), lz=min(self.lz, (m & -m).bit_length() - 1))
             return SymNum(self.t + z3.IntVal(m) - _and_const(self.t, m))
         o = _lift(o)
         if o is NotImplemented:
             return NotImplemented
-        return SymNum(_bitop_sym(self, o, "or"))
+        return _bitop_sym(self, o, "or")
 
     __ror__ = __or__
 
@@ -455,11 +459,13 @@ class SymNum:
         self._need_int()
         m = _const_int(o)
         if m is not None:
+            if m == 0:
+                return self
             return SymNum(self.t + z3.IntVal(m) - 2 * _and_const(self.t, m))
         o = _lift(o)
         if o is NotImplemented:
             return NotImplemented
-        return SymNum(_bitop_sym(self, o, "xor"))
+        return _bitop_sym(self, o, "xor")
 
     __rxor__ = __xor__
 
@@ -634,14 +640,14 @@ def _bitop_sym(a: SymNum, b: SymNum, op: str, width: int = 32):
         k = x.lz or _pow2_factor(x.t)
         if k and c.proves(z3.And(y.t >= 0, y.t < _pow2(k))):
             if op in ("or", "xor"):
-                return x.t + y.t
-            return z3.IntVal(0)
+                return SymNum(x.t + y.t, lz=min(x.lz, y.lz) if (x.lz and y.lz) else 0)
+            return SymNum(z3.IntVal(0))
     c.require(z3.And(a.t >= 0, a.t < _pow2(width), b.t >= 0, b.t < _pow2(width)),
               "bit-op operands within 0..2**%d" % width)
     bva = z3.Int2BV(a.t, width)
     bvb = z3.Int2BV(b.t, width)
     r = {"and": bva & bvb, "or": bva | bvb, "xor": bva ^ bvb}[op]
-    return z3.BV2Int(r, is_signed=False)
+    return SymNum(z3.BV2Int(r, is_signed=False))
 
 
 def pow2_sym(k: SymNum, limit: int = 64):
